@@ -215,8 +215,9 @@ retry_fetch_lv:
         // case 1. lv_ptr != nullptr, and link to next-layer
         // visited this node
 
-        root = lv_ptr->get_next_layer();
-        if (root == nullptr) {
+        // keep root: it is the root of this layer and is saved in the stack element below
+        base_node* next_root = lv_ptr->get_next_layer();
+        if (next_root == nullptr) {
             if (early_abort) { return status::WARN_CONCURRENT_OPERATIONS; }
             goto retry_fetch_lv; // NOLINT
         }
@@ -243,6 +244,7 @@ retry_fetch_lv:
                 cmp_to_end = -1;
             }
         }
+        root = next_root;
         goto next_layer; // NOLINT
     }
 
